@@ -13,7 +13,9 @@ import NfpmModel.Lemmas.VersionLemmas
         the same under rpm's rpmvercmp for  core~pre…  vs  core / core+meta
     dpkg_numeric_order / dpkg_semver_order
         two versions that share leading numeric components and then carry d1 < d2 (as numbers:
-        `decVal`, leading zeros and any length allowed) compare as "less" under verrevcmp, whatever follows
+        `digitsVal`, leading zeros and any length allowed) compare as "less" under verrevcmp, whatever follows
+    rpm_numeric_order
+        the same under rpm's rpmvercmp (the rpm epoch is a header tag of its own, compared as an integer by rpm)
     dpkg_epoch_dominates / dpkg_epoch_over_none
         a lower epoch sorts first under dpkg's whole comparison whatever the version strings are;
         no epoch sorts before every positive epoch
@@ -292,7 +294,7 @@ theorem verrevcmpF_dotted (ps : List Bytes) (hps : ∀ d ∈ ps, DigitRun d) (f 
     that share any number of leading numeric components and then carry the numbers `d1 < d2` compare as
     "less", whatever follows (further components, `~prerelease`, `+metadata`, `-revision`) -/
 theorem dpkg_numeric_order (ps : List Bytes) (hps : ∀ d ∈ ps, DigitRun d) (d1 d2 : Bytes) (h1 : DigitRun d1)
-    (h2 : DigitRun d2) (A B : Bytes) (hA : NoDigitHead A) (hB : NoDigitHead B) (hlt : decVal d1 < decVal d2) :
+    (h2 : DigitRun d2) (A B : Bytes) (hA : NoDigitHead A) (hB : NoDigitHead B) (hlt : digitsVal d1 < digitsVal d2) :
     verrevcmp (dotted ps ++ (d1 ++ A)) (dotted ps ++ (d2 ++ B)) < 0 := by
   have hnum := (cmpDigits_numeric d1 d2 h1.2 h2.2).1.mpr hlt
   unfold verrevcmp
@@ -307,7 +309,7 @@ theorem dpkg_numeric_order (ps : List Bytes) (hps : ∀ d ∈ ps, DigitRun d) (d
 theorem dpkg_semver_order (M1 m1 p1 M2 m2 p2 A B : Bytes)
     (hM1 : DigitRun M1) (hm1 : DigitRun m1) (hp1 : DigitRun p1) (hM2 : DigitRun M2) (hm2 : DigitRun m2)
     (hp2 : DigitRun p2) (hA : NoDigitHead A) (hB : NoDigitHead B)
-    (hlt : decVal M1 < decVal M2 ∨ (M1 = M2 ∧ decVal m1 < decVal m2) ∨ (M1 = M2 ∧ m1 = m2 ∧ decVal p1 < decVal p2)) :
+    (hlt : digitsVal M1 < digitsVal M2 ∨ (M1 = M2 ∧ digitsVal m1 < digitsVal m2) ∨ (M1 = M2 ∧ m1 = m2 ∧ digitsVal p1 < digitsVal p2)) :
     verrevcmp (M1 ++ dot :: m1 ++ dot :: p1 ++ A) (M2 ++ dot :: m2 ++ dot :: p2 ++ B) < 0 := by
   have hdot : ∀ X : Bytes, NoDigitHead (dot :: X) := fun X => Or.inr ⟨dot, X, rfl, isDigit_dot⟩
   rcases hlt with h | ⟨e, h⟩ | ⟨e, e', h⟩
@@ -354,7 +356,7 @@ theorem dpkgCompare_epoch (a b : Bytes) (h : cmpDigits (dpkgSplit a).1 (dpkgSpli
 
 /-- **deb / ipk: any higher epoch sorts after any lower one**, whatever the two version strings are -/
 theorem dpkg_epoch_dominates (e1 e2 r1 r2 : Bytes) (hd1 : ∀ x ∈ e1, isDigit x = true)
-    (hd2 : ∀ x ∈ e2, isDigit x = true) (hlt : decVal e1 < decVal e2) :
+    (hd2 : ∀ x ∈ e2, isDigit x = true) (hlt : digitsVal e1 < digitsVal e2) :
     dpkgCompare (e1 ++ colon :: r1) (e2 ++ colon :: r2) < 0 := by
   have hc : ∀ e : Bytes, (∀ x ∈ e, isDigit x = true) → colon ∉ e := by
     intro e he hm; have := he colon hm; revert this; decide
@@ -364,12 +366,12 @@ theorem dpkg_epoch_dominates (e1 e2 r1 r2 : Bytes) (hd1 : ∀ x ∈ e1, isDigit 
 
 /-- … and a version without epoch (nfpm writes none when the epoch is empty) sorts before every version with a
     positive epoch -/
-theorem dpkg_epoch_over_none (s e r : Bytes) (hs : colon ∉ s) (hd : ∀ x ∈ e, isDigit x = true) (hpos : 0 < decVal e) :
+theorem dpkg_epoch_over_none (s e r : Bytes) (hs : colon ∉ s) (hd : ∀ x ∈ e, isDigit x = true) (hpos : 0 < digitsVal e) :
     dpkgCompare s (e ++ colon :: r) < 0 := by
   have hc : colon ∉ e := by intro hm; have := hd colon hm; revert this; decide
   apply dpkgCompare_epoch
   rw [dpkgSplit_noepoch_fst s hs, dpkgSplit_epoch_fst _ _ hc]
-  exact (cmpDigits_numeric [] e (by simp) hd).1.mpr (by simpa [decVal] using hpos)
+  exact (cmpDigits_numeric [] e (by simp) hd).1.mpr (by simpa [digitsVal] using hpos)
 
 example : dpkgCompare (b!"9.9.9-1") (b!"1:0.0.1~rc1-1") < 0 := by decide
 example : dpkgCompare (b!"2:9.9.9-1") (b!"10:0.0.1-1") < 0 := by decide
@@ -504,6 +506,73 @@ theorem rpm_prerelease_sorts_before (runs : List Bytes) (hne : runs ≠ []) (hr 
   omega
 
 /-! ### the strings nfpm renders have that shape -/
+
+/-! ### rpm: numeric order of the components -/
+
+/-- two different numbers at the same position decide rpm's comparison -/
+theorem rpmBody_digits_differ (rec : Bytes → Bytes → Int) (d1 d2 : Bytes) (h1 : DigitRun d1) (h2 : DigitRun d2)
+    (A B : Bytes) (hA : NoDigitHead A) (hB : NoDigitHead B) (hlt : cmpDigits d1 d2 < 0) :
+    rpmBody rec (d1 ++ A) (d2 ++ B) = -1 := by
+  obtain ⟨ta, tb⟩ := takeWhile_digits_stop d1 A h1.2 hA
+  obtain ⟨ta2, tb2⟩ := takeWhile_digits_stop d2 B h2.2 hB
+  obtain ⟨c1, r1, e1, hc1⟩ := h1.head_digit
+  obtain ⟨c2, r2, e2, hc2⟩ := h2.head_digit
+  obtain ⟨p1, q1, _⟩ := digit_facts c1 hc1
+  obtain ⟨p2, q2, _⟩ := digit_facts c2 hc2
+  have hh1 : (d1 ++ A).head? = some c1 := by subst e1; rfl
+  have hh2 : (d2 ++ B).head? = some c2 := by subst e2; rfl
+  have hn1 : (d1 ++ A = []) = False := by subst e1; simp
+  have hn2 : (d2 ++ B = []) = False := by subst e2; simp
+  have hd2 : (d2 = []) = False := by subst e2; simp
+  have hne : cmpDigits d1 d2 ≠ 0 := by omega
+  unfold rpmBody
+  simp only [hh1, hh2, Option.some.injEq, p1, p2, q1, q2, or_self, decide_false, Bool.or_self, Bool.false_eq_true,
+    if_false, hn1, hn2, hc1, if_true, ta, tb, ta2, tb2, hd2, ne_eq, hne, not_false_eq_true, hlt]
+
+/-- a numeric component and its dot are consumed on both sides, whatever follows -/
+theorem rpmvercmpF_digits_dot (f : Nat) (d : Bytes) (hd : DigitRun d) (A B : Bytes) :
+    rpmvercmpF (f + 2) (d ++ dot :: A) (d ++ dot :: B) = rpmvercmpF (f + 1) A B := by
+  rw [rpmvercmpF, dropWhile_rsep_digitHead d hd, dropWhile_rsep_digitHead d hd,
+    rpmBody_digits _ d hd dot dot _ _ isDigit_dot isDigit_dot]
+  rw [rpmvercmpF, rpmvercmpF]
+  simp only [List.dropWhile_cons, rsep_dot, if_true]
+
+theorem rpmvercmpF_dotted (ps : List Bytes) (hps : ∀ d ∈ ps, DigitRun d) (f : Nat) (X Y : Bytes) :
+    rpmvercmpF (f + 1 + ps.length) (dotted ps ++ X) (dotted ps ++ Y) = rpmvercmpF (f + 1) X Y := by
+  induction ps generalizing f with
+  | nil => simp [dotted]
+  | cons p ps ih =>
+    simp only [dotted, List.length_cons, List.append_assoc, List.cons_append]
+    rw [show f + 1 + (ps.length + 1) = (f + ps.length) + 2 by omega,
+      rpmvercmpF_digits_dot (f + ps.length) p (hps p (by simp)),
+      show f + ps.length + 1 = f + 1 + ps.length by omega]
+    exact ih (fun d hd => hps d (List.mem_cons_of_mem _ hd)) f
+
+/-- **rpm: a different major.minor.patch orders numerically** under rpm's own rpmvercmp: two versions that
+    share any number of leading numeric components and then carry the numbers `d1 < d2` compare as "older",
+    whatever follows -/
+theorem rpm_numeric_order (ps : List Bytes) (hps : ∀ d ∈ ps, DigitRun d) (d1 d2 : Bytes) (h1 : DigitRun d1)
+    (h2 : DigitRun d2) (A B : Bytes) (hA : NoDigitHead A) (hB : NoDigitHead B) (hlt : digitsVal d1 < digitsVal d2) :
+    rpmvercmp (dotted ps ++ (d1 ++ A)) (dotted ps ++ (d2 ++ B)) = -1 := by
+  have hnum := (cmpDigits_numeric d1 d2 h1.2 h2.2).1.mpr hlt
+  have hneq : dotted ps ++ (d1 ++ A) ≠ dotted ps ++ (d2 ++ B) := by
+    intro e
+    have e' := List.append_cancel_left e
+    have t1 := (takeWhile_digits_stop d1 A h1.2 hA).1
+    have t2 := (takeWhile_digits_stop d2 B h2.2 hB).1
+    rw [e', t2] at t1
+    subst t1
+    omega
+  unfold rpmvercmp
+  simp only [hneq, if_false]
+  have hl := dotted_length ps
+  obtain ⟨f, hf⟩ : ∃ f, (dotted ps ++ (d1 ++ A)).length + (dotted ps ++ (d2 ++ B)).length + 1 = f + 1 + ps.length :=
+    ⟨(dotted ps ++ (d1 ++ A)).length + (dotted ps ++ (d2 ++ B)).length - ps.length, by
+      simp only [List.length_append]; omega⟩
+  rw [hf, rpmvercmpF_dotted ps hps, rpmvercmpF, dropWhile_rsep_digitHead d1 h1, dropWhile_rsep_digitHead d2 h2]
+  exact rpmBody_digits_differ _ d1 d2 h1 h2 A B hA hB hnum
+
+example : rpmvercmp (b!"1.9.0") (b!"1.10.0~rc1") = -1 := by decide
 
 /-- deb/ipk: with a prerelease the control version is `[epoch:]version~pre…`, without it `[epoch:]version…` -/
 theorem deb_version_shape (i : VInfo) (hp : i.prerelease ≠ []) :
